@@ -17,6 +17,8 @@ RULE = ("(kernel) generated parameters for Binary/Purification RBMs (n 1..4, nh 
         "current chain state. (empirical) 20000 parallel chains with the real RNG vs row v0 of T_ref^k, Hoeffding+union bound "
         "threshold (false-alarm prob <= 1e-12 per case). Non-trivial = all biases non-zero, nh != nv or na != nv, k >= 1, and for "
         "histories some uniform fell on each side of its probability.")
+RULE_EXT = ('Extended as built: the start state seen by the kernel is learned from a spy on gibbs_steps; results of earlier calls are held and re-verified after later calls; float32 start states; default start must be random and of the right shape; effective_energy(v, a) with explicit auxiliary units.')
+RULE = RULE + " " + RULE_EXT
 ASSUMPTIONS = ["(history) the implementation draws through torch.bernoulli; if the monitor sees no call for k>0 it declares itself "
                "inapplicable instead of raising", "(empirical) power limited to deviations >= ~3% in some state probability",
                "start states are float64 CPU tensors (the documented exception for other devices is out of reach)"]
